@@ -7,12 +7,17 @@ def main():
     pats = sys.argv[1:]
     verbose = "-v" in pats
     pats = [p for p in pats if p not in ("-v", "-m")]
+    only = None
+    for p in list(pats):
+        if p.startswith("--prop="):
+            only = p.split("=", 1)[1]
+            pats.remove(p)
     for fq, c in w.contracts.items():
         if pats and not any(p in fq for p in pats):
             continue
         t = time.time()
         try:
-            rep = verify_function(w, c)
+            rep = verify_function(w, c, only_prop=only)
         except Exception as e:
             import traceback; traceback.print_exc()
             print("CHECKER-ERROR", fq, e)
